@@ -108,6 +108,12 @@ impl Gen<'_> {
                 let same_group: Vec<&Info> = self.infos.iter().filter(|i| !i.pom_pkg && i.gav.g == g).collect();
                 if !same_group.is_empty() { a = self.rng.pick(&same_group).gav.a.clone(); }
             }
+            if !pom_pkg && self.rng.chance(1, 9) {
+                // a library whose artifact id reads like "<another library of the group>-<classifier>" (lib + classifier tests next to lib-tests):
+                // two different artifacts whose naively joined keys coincide
+                let same_group: Vec<&Info> = self.infos.iter().filter(|i| !i.pom_pkg && i.gav.g == g && !i.gav.a.contains('-')).collect();
+                if !same_group.is_empty() { a = format!("{}-{}", self.rng.pick(&same_group).gav.a, self.rng.pick(&["tests", "sources", "natives-linux", "client", "javadoc"])); }
+            }
             if tries > 12 { a = format!("{a}{k}"); }
             gav = Gav { g, a, v };
             let clash_kind = self.infos.iter().any(|i| i.gav.g == gav.g && i.gav.a == gav.a && i.pom_pkg != pom_pkg);
